@@ -110,6 +110,7 @@ func loadWorld(repoDir string, overlay map[string][]byte, goarch string) *World 
 	for g, t := range constTablesOf(w, w.ReplP, w.Repl) {
 		defaultTables[g] = t
 	}
+	buildRoleRev(w)
 	return w
 }
 
@@ -183,7 +184,11 @@ func (w *World) posOf(in ssa.Instruction) string {
 // ---- lookups -------------------------------------------------------------
 
 func (w *World) fn(pkg *ssa.Package, name string) *ssa.Function {
-	return pkg.Func(name)
+	if f := pkg.Func(name); f != nil {
+		return f
+	}
+	// an unexported function may have been renamed: find it again by its role
+	return w.fnByRole(pkg, name)
 }
 
 func (w *World) namedType(pkg *ssa.Package, name string) *types.Named {
